@@ -192,7 +192,9 @@ package invocation
 //@   ensures [C10,C07] complete: wfInv(t) && sealablei(t) ==> result == nil
 //@   assigns [C20] nothing
 //@
+//@ pure func accI(m tokenPayloadModel) bool = parseOK(m.Iss) && parseOK(m.Sub) && (m.Aud == nil || parseOK(*m.Aud)) && validCmd(m.Cmd) && argsValErr(m.Args) == nil && len(m.Nonce) >= 12 && inSafeRange(m.Exp) && inSafeRange(m.Iat)
 //@ func tokenFromModel
+//@   ensures [C07] accepts: accI(m) ==> result1 == nil
 //@   ensures [C09] total: true
 //@   requires m.Args != nil && m.Args.Values != nil && (forall k string :: has(m.Args.Values, k) ==> m.Args.Values[k] != nil)
 //@   ensures [C06] issuer: result1 == nil ==> result0.issuer == parsedDID(m.Iss)
@@ -218,9 +220,10 @@ package invocation
 //@     forall p *tokenPayloadModel :: p != nil ==> p.Args != nil && p.Args.Values != nil && (forall k string :: has(p.Args.Values, k) ==> p.Args.Values[k] != nil)
 //@         && p.Iss == nodeStr(lookupStr(unwrapSrc(box(p)), "iss"))
 //@
+//@ ghost func protoI() schema.TypedPrototype
 //@ func (*tokenPayloadModel).Prototype
 //@   trusted
-//@   ensures result != nil
+//@   ensures result != nil && result == protoI()
 //@
 //@ func FromIPLD
 //@   ensures [C09] total: true
@@ -230,6 +233,8 @@ package invocation
 //@   ensures [C06,C10] envelope: result1 == nil ==> envelopeVerified(node, Tag)
 //@   ensures [C06] issuer: result1 == nil ==> result0 != nil && result0.issuer == parsedDID(nodeStr(lookupStr(tokenPayloadOf(sigPayload(node)), "iss")))
 //@   ensures [C10] wellformed: result1 == nil ==> wfInv(result0) && validCmd(string(result0.command))
+//@   // C07 (no spurious rejection): an envelope whose every stage is acceptable, carrying an acceptable model, is decoded
+//@   ensures [C07] complete: envAcceptable(node, Tag, protoI()) && unwrapOf(typedNode(reprOf(protoI()), tokenPayloadOf(sigPayload(node)))) is *tokenPayloadModel && unwrapOf(typedNode(reprOf(protoI()), tokenPayloadOf(sigPayload(node)))).(*tokenPayloadModel) != nil && accI(*unwrapOf(typedNode(reprOf(protoI()), tokenPayloadOf(sigPayload(node)))).(*tokenPayloadModel)) ==> result1 == nil
 //@
 //@ // ---- decoders from bytes: decode, then the verified FromIPLD -------------------------------------------
 //@ func Decode
